@@ -289,6 +289,11 @@ impl<'a> Gen<'a> {
             let tn = format!("{}{letters}", ["UUID", "IA-", "U-ID-"][self.rng.below(3)]);
             defs.push(D { text: format!("{tn} ::= INTEGER (0..255)"), name: tn, kind: Kind::Type, shape: "Int".into(), refs: vec![], fault: None });
         }
+        // a type name with hyphens followed by lower-case letters and digits (title-casing changes it a lot)
+        if self.rng.chance(1, 3) {
+            let tn = format!("Cause-radio-net-{}w", uid.replace('x', "-"));
+            defs.push(D { text: format!("{tn} ::= INTEGER (0..255)"), name: tn, kind: Kind::Type, shape: "Int".into(), refs: vec![], fault: None });
+        }
         M { name: name.into(), tagging: self.rng.below(4), ext: self.rng.chance(1, 3), imports: vec![], defs }
     }
 }
